@@ -558,6 +558,16 @@ _fam("log", "log", "house h\nlogger lg\n", "  log one", [
     ("as", "as binary"),
     ("on", "on update"),
 ], post="    loggee .a.b\nframer f be active\nframe a\n")
+# a later log naming the file an earlier log of the same logger already writes: whatever the duplicate rule is, it
+# must give the same outcome for every order of the later command's clauses
+for _ek in ("text", "binary"):
+    for _lk in ("binary", "text"):
+        _fam("log/dup-%s-%s" % (_ek, _lk), "log",
+             "house h\nlogger lg\n  log first to shared as %s\n    loggee .a.b\n" % _ek, "  log two", [
+                 ("to", "to shared"),
+                 ("as", "as " + _lk),
+                 ("on", "on update"),
+             ], post="    loggee .c.d\nframer f be active\nframe a\n")
 _SERVER_PRE = "house h\ninit .srv.src with gamma 3\n"
 # `per` and `for` both feed the server's init data: here they carry keys the server really uses (period, prefix),
 # so losing either clause's data shows in the dumped tasker (no at / to clause: those would set the same keys;
